@@ -255,6 +255,12 @@ fn check_history_inner(model: &Model, h: usize, cfg: &Cfg, now: u64, txn: &Trans
         None => {
             if let Err(why) = is_subsequence_containing(&got, &exp) {
                 let mut class = class_of(&got, &exp_entries);
+                // the same version listed twice in a row (and nothing else wrong)?
+                let mut dedup = got.clone();
+                dedup.dedup();
+                if dedup.len() < got.len() && is_subsequence_containing(&dedup, &exp).is_ok() {
+                    class = "history-version-listed-twice".into();
+                }
                 if q.ts_range.is_some() {
                     // known finding F10: the timestamp filter runs before the barrier logic, so a barrier outside the
                     // range does not erase the versions below it. What is shown is then the timestamp-filtered list
